@@ -5,7 +5,9 @@ import (
 	"fmt"
 	"hash/fnv"
 	"reflect"
+	"sort"
 	"strings"
+	"time"
 )
 
 var NoAttachedGoStruct = fmt.Errorf("hash has no attach Go struct")
@@ -705,31 +707,34 @@ func fillHashHelper(r interface{}, depth int, env *Zlisp, preferSym bool) (Sexp,
 	//Q("fillHashHelper() at depth %d, decoded type is %T\n", depth, r)
 
 	// check for one of our registered structs
+	if r == nil {
+		return SexpNull, nil
+	}
+	rv := reflect.ValueOf(r)
+	switch rv.Kind() {
+	case reflect.Ptr, reflect.Map, reflect.Interface:
+		if rv.IsNil() {
+			// a nil pointer, also a typed one such as (*T)(nil), is nil
+			return SexpNull, nil
+		}
+	}
 
-	// go through the type registry upfront
-	for hashName, factory := range GoStructRegistry.Registry {
-		//P("fillHashHelper is trying hashName='%s'", hashName)
-		st, err := factory.Factory(env, nil)
+	factory, err := GoStructRegistry.LookupByGoType(env, rv.Type())
+	if err != nil {
+		return SexpNull, err
+	}
+	if factory != nil {
+		retHash, err := MakeHash([]Sexp{}, factory.RegisteredName, env)
+		if err != nil {
+			return SexpNull, fmt.Errorf("MakeHash '%s' problem: %s",
+				factory.RegisteredName, err)
+		}
+
+		err = retHash.FillHashFromShadow(env, r)
 		if err != nil {
 			return SexpNull, err
 		}
-		if reflect.ValueOf(st).Type() == reflect.ValueOf(r).Type() {
-			//Q("we have a registered struct match for st=%T and r=%T", st, r)
-			retHash, err := MakeHash([]Sexp{}, hashName, env)
-			if err != nil {
-				return SexpNull, fmt.Errorf("MakeHash '%s' problem: %s",
-					hashName, err)
-			}
-
-			err = retHash.FillHashFromShadow(env, r)
-			if err != nil {
-				return SexpNull, err
-			}
-			//Q("retHash = %#v\n", retHash)
-			return retHash, nil // or return sx?
-		} else {
-			//Q("fillHashHelper: no match for st=%T and r=%T", st, r)
-		}
+		return retHash, nil
 	}
 
 	//Q("fillHashHelper: trying basic non-struct types for r=%T", r)
@@ -820,11 +825,71 @@ func fillHashHelper(r interface{}, depth int, env *Zlisp, preferSym bool) (Sexp,
 	case bool:
 		return &SexpBool{Val: val}, nil
 
+	case time.Time:
+		// times are not handed back to the script (pinned by the existing tests)
+		return SexpNull, nil
+
 	default:
 		//Q("unknown type in type switch, val = %#v.  type = %T.\n", val, val)
 	}
 
-	return SexpNull, nil
+	// everything else by kind: slices and arrays of anything, maps with
+	// string keys, structs held by value, and named scalar types.
+	switch rv.Kind() {
+	case reflect.Slice, reflect.Array:
+		if rv.Kind() == reflect.Slice && rv.IsNil() {
+			return SexpNull, nil
+		}
+		slice := make([]Sexp, 0, rv.Len())
+		for i := 0; i < rv.Len(); i++ {
+			sx2, err := fillHashHelper(rv.Index(i).Interface(), depth+1, env, preferSym)
+			if err != nil {
+				return SexpNull, err
+			}
+			slice = append(slice, sx2)
+		}
+		return &SexpArray{Val: slice, Env: env}, nil
+	case reflect.Map:
+		if rv.Type().Key().Kind() != reflect.String {
+			return SexpNull, fmt.Errorf("cannot convert %T to a record value: only maps with string keys are supported", r)
+		}
+		keys := make([]string, 0, rv.Len())
+		for _, k := range rv.MapKeys() {
+			keys = append(keys, k.String())
+		}
+		sort.Strings(keys)
+		pairs := make([]Sexp, 0, 2*len(keys))
+		for _, k := range keys {
+			v, err := fillHashHelper(rv.MapIndex(reflect.ValueOf(k).Convert(rv.Type().Key())).Interface(), depth+1, env, preferSym)
+			if err != nil {
+				return SexpNull, err
+			}
+			pairs = append(pairs, &SexpStr{S: k}, v)
+		}
+		return MakeHash(pairs, "hash", env)
+	case reflect.Struct:
+		// a struct held by value: convert through a pointer to a copy, if registered
+		p := reflect.New(rv.Type())
+		p.Elem().Set(rv)
+		if f, err := GoStructRegistry.LookupByGoType(env, p.Type()); err == nil && f != nil {
+			return fillHashHelper(p.Interface(), depth+1, env, preferSym)
+		}
+		return SexpNull, fmt.Errorf("cannot convert %T to a record value: type is not registered", r)
+	case reflect.Ptr, reflect.Interface:
+		return fillHashHelper(rv.Elem().Interface(), depth+1, env, preferSym)
+	case reflect.Int, reflect.Int8, reflect.Int16, reflect.Int32, reflect.Int64:
+		return &SexpInt{Val: rv.Int()}, nil
+	case reflect.Uint, reflect.Uint8, reflect.Uint16, reflect.Uint32, reflect.Uint64:
+		return &SexpUint64{Val: rv.Uint()}, nil
+	case reflect.Float32, reflect.Float64:
+		return &SexpFloat{Val: rv.Float()}, nil
+	case reflect.String:
+		return &SexpStr{S: rv.String()}, nil
+	case reflect.Bool:
+		return &SexpBool{Val: rv.Bool()}, nil
+	}
+
+	return SexpNull, fmt.Errorf("cannot convert %T to a record value", r)
 }
 
 func (h *SexpHash) nestedPathGetSet(env *Zlisp, dotpaths []string, setVal *Sexp) (Sexp, error) {
